@@ -37,6 +37,19 @@ end Sif.Spec.C18
 namespace Sif.Spec.C18
 open Sif Sif.Clp
 
+/-- depth rewards as recorded by one real EndBlocker (L1): `weights` = configured multiplier × native
+    balance of each pool before the block, `rewards` = what the block added to each pool's per-period
+    counter.  A pool receives at most its weighted share of what the block distributed in total (T),
+    up to rounding (one unit per pool from the truncated shares, 10⁻¹⁷ relative from the 18-decimal
+    weights); with no positive weight nothing is distributed. -/
+def splitObservedOK (weights : List Rat) (rewards : List Nat) : Bool :=
+  let W : Rat := weights.foldl (fun a b => a + b) 0
+  let T : Nat := rewards.foldl (fun a b => a + b) 0
+  let n : Nat := rewards.length
+  decide (weights.length = n) &&
+  (if W ≤ 0 then decide (T = 0)
+   else (List.zip weights rewards).all (fun (w, r) => decide ((r : Rat) ≤ w / W * (T : Rat) + (n : Rat) + ((n : Rat) + 2) * 4 * eps (T : Rat))))
+
 /-- "accounts that are not eligible providers receive nothing": every account whose balance grew
     during a block hook is a provider (EndBlocker: of some pool, paid in the native token; epoch
     hook: an eligible provider of the pool of the token it was paid in).  `pre` = the state before
